@@ -3,6 +3,7 @@ SPEC = {
     'theorems': ['EV.Index.C03_undo_exact', 'EV.Index.C03_advance_backup', 'EV.Index.C03_reorg_range',
                  'EV.Index.C03_reorg_range_forced', 'EV.Index.backupTxs_inverts',
                  'EV.Reorg.calcReorgRange_counterexample_shallow_chain'],
+    'claims': {'exclude_tags': ['window'], 'violation_require': ['after_backup']},
     'suites': ['index', 'reorgrange'],
     'design_ref': 'DESIGN.md §6 C03',
     'assumptions': [
